@@ -260,15 +260,17 @@ pub fn tool(cmd: &str, args: &[String]) -> i32 {
         }
         "keygen-case" => {
             let n: usize = args[0].parse().unwrap();
-            let sd: u8 = args[1].parse().unwrap();
-            let r = if n == 512 { crate::falcon::verif::keygen_case::<512>([sd; 32]) } else { crate::falcon::verif::keygen_case::<1024>([sd; 32]) };
+            // seed: 64 hex digits, or a small number s meaning [s; 32]
+            let mut seed = [0u8; 32];
+            if args[1].len() == 64 { seed.copy_from_slice(&unhex(&args[1])); } else { seed = [args[1].parse::<u8>().unwrap(); 32]; }
+            let r = if n == 512 { crate::falcon::verif::keygen_case::<512>(seed) } else { crate::falcon::verif::keygen_case::<1024>(seed) };
             match r { Ok(()) => { println!("the key pair of this seed is a valid NTRU trapdoor with in-range leaves and survives serialisation"); 0 } Err(why) => { println!("REPRODUCED {}", why); 1 } }
         }
         "search-keygen" => {
             let seed: u64 = args.get(0).and_then(|s| s.parse().ok()).unwrap_or(0);
             match crate::falcon::verif::search_keygen(seed) {
                 Some(d) => { println!("WITNESS {}", d); 1 }
-                None => { println!("NO-WITNESS (key pairs of seeds [0;32], [1;32], [2;32] at n = 512 and [0;32] at n = 1024)"); 0 }
+                None => { println!("NO-WITNESS (key pairs of 7 seeds at n = 512 and of [0;32] at n = 1024)"); 0 }
             }
         }
         "sk-str-case" => {
